@@ -100,7 +100,9 @@ func c19Typed() []typedVal {
 	return []typedVal{
 		{"num-big", json.Number("9007199254740993")}, {"num-2^63", json.Number("9223372036854775808")}, {"num-small", json.Number("0.0000001")},
 		{"num-neg0", json.Number("-0")}, {"num-0.1", json.Number("0.1")}, {"num-1e21", json.Number("1e21")}, {"num-1.0", json.Number("1.0")},
-		{"num-int", json.Number("42")}, {"bool-true", true}, {"bool-false", false}, {"typed-null", nil},
+		{"num-int", json.Number("42")},
+		// very small, negative-small and near-integer numbers, the smallest subnormal, a sum artefact
+		{"num-1e-12", json.Number("1e-12")}, {"num--1e-10", json.Number("-1e-10")}, {"num-near-int", json.Number("2.0000000001")}, {"num-subnormal", json.Number("5e-324")}, {"num-0.30000000000000004", json.Number("0.30000000000000004")}, {"num-neg-frac", json.Number("-273.15")}, {"bool-true", true}, {"bool-false", false}, {"typed-null", nil},
 	}
 }
 
